@@ -358,11 +358,14 @@ def check_aesthetics(ctx, repo):
     means = [st for st in walk_local(f.node) if isinstance(st, ast.Assign) and isinstance(st.targets[0], ast.Subscript) and 'mean' in src(st.value)]
     for st in means:
         idx = st.targets[0].slice
-        ok = isinstance(idx, ast.UnaryOp) and isinstance(idx.op, ast.Invert) and isinstance(idx.operand, ast.Name)
-        if ok:
-            d = fa.resolve(idx.operand)
-            ok = d is not None and src(d) == 'invvar > 0'
-        ctx.check('C17.AESTH', ok, f, st, 'mean method writes only where invvar > 0 is false', msg='the mean method stores through `%s`' % src(idx), construct='mean store ' + src(st)[:70])
+        d = fa.deep(idx) if isinstance(idx, ast.Name) else idx
+        ds = src(d).replace(' ', '')
+        ok = ds in ('invvar==0', '0==invvar', '~(invvar!=0)', 'invvar==0.0')
+        wider = ds in ('~goodpts', '~(invvar>0)', 'invvar<=0') or (isinstance(d, ast.UnaryOp) and isinstance(d.op, ast.Invert) and isinstance(d.operand, ast.Name)
+                                                                 and src(fa.deep(d.operand)).replace(' ', '') == 'invvar>0')
+        ctx.check('C17.AESTH', ok, f, st, 'mean method writes exactly where invvar == 0 (`%s`)' % src(idx),
+                  msg='the mean method stores through `%s`%s: flux is changed where the inverse variance is not zero' % (
+                      src(idx), ' = not (invvar > 0), which also selects negative inverse variances' if wider else ''), construct='mean store ' + src(st)[:70])
     ctx.need(means, 'aesthetics: mean store not found')
     rets = [r for r in walk_local(f.node) if isinstance(r, ast.Return) and r.value is not None]
     unchanged = [r for r in rets if src(r.value) == f.params[0]]
